@@ -480,7 +480,7 @@ Proof.
   intros w rt tg u w' H Hfresh Hnd.
   destruct (kill_pods_success_shape w rt tg u w' H) as (kill & (g & Hg) & Hp & Hc & Ht).
   rewrite Hfresh in *. set (P := w_pods w) in *.
-  rewrite Hc, Ht, Hp, kill_effects_map, tally_tsum, tsum_map.
+  rewrite Hc, Ht, Hp, kill_effects_map, (tally_tsum (map (kfun kill) P)), tsum_map.
   rewrite (tsum_ext_in _ (fun q => if g q then one_term else classify q)).
   - rewrite tsum_split, tsum_const_len, <- Hg.
     assert (Er : filter (fun p => negb (in_kill kill p)) P = filter (fun x => negb (g x)) P).
